@@ -30,6 +30,8 @@ type scenario struct {
 	clock   int64 // global aligned clock
 	advs    int
 	nontriv map[string]bool
+
+	zeroYieldSiblings map[string]bool // ids of admitted transactions [amount, 0 yielding rest]
 }
 
 func pick[T any](r *rand.Rand, xs []T) T { return xs[r.Intn(len(xs))] }
@@ -60,14 +62,14 @@ func (sc *scenario) node(i int) *node.Node { return sc.w.Nodes[i] }
 
 // per-profile favoured templates (70 % of the draws); every profile still draws from the full lists
 var favTx = map[string][]string{
-	"value":  {"valid", "same-input-twice-rich", "yield-swap", "fee-exact", "fee-low", "fee-plus1", "overflow", "huge-output", "huge-output", "many-outputs", "consolidate", "zero-output"},
+	"value":  {"valid", "zero-yield-rest", "same-input-twice-rich", "yield-swap", "fee-exact", "fee-low", "fee-plus1", "overflow", "huge-output", "huge-output", "many-outputs", "consolidate", "zero-output"},
 	"spend":  {"valid", "double-spend", "same-input-twice", "same-input-twice-rich", "spend-pooled", "spend-last-block", "duplicate", "bad-index", "unknown-ref"},
 	"owner":  {"valid", "valid", "bad-sig-first", "bad-sig-first", "zero-first-outputs", "zero-first-outputs", "shifted-owner", "shifted-owner", "shifted-owner", "many-outputs", "bad-sig", "zero-sig", "wrong-owner", "wrong-owner-2nd", "wrong-owner-2nd", "foreign-sig", "replay-sig", "replay-sig", "unknown-ref"},
 	"shape":  {"valid", "ts-old", "ts-last", "ts-next", "ts-future"},
-	"income": {"valid", "yield-new", "yield-new", "yield-twice", "yield-registered", "yield-pending", "yield-swap", "yield-swap"},
+	"income": {"valid", "valid", "yield-new", "yield-new", "yield-twice", "yield-registered", "yield-pending", "yield-swap", "yield-swap", "zero-yield-rest", "zero-yield-rest", "zero-yield-rest"},
 	"alias":  {"valid", "yield-new", "yield-new", "yield-registered"},
 	"pool":   {"valid", "valid", "yield-swap", "yield-swap", "yield-swap", "yield-swap", "yield-swap", "duplicate", "double-spend", "fee-low", "fee-exact", "ts-old", "ts-future", "ts-next", "ts-last", "same-input-twice"},
-	"agree":  {"valid", "valid", "yield-swap", "yield-swap", "fee-exact", "ts-last", "ts-next", "yield-new", "yield-registered", "consolidate", "zero-output", "spend-last-block", "spend-pooled"},
+	"agree":  {"valid", "valid", "yield-pending", "yield-swap", "yield-swap", "fee-exact", "ts-last", "ts-next", "yield-new", "yield-registered", "consolidate", "zero-output", "spend-last-block", "spend-pooled"},
 }
 var favBreak = map[string][]string{
 	"value":  {"reward-plus1", "low-fee", "ok-fee", "huge-output"},
@@ -126,7 +128,7 @@ func (sc *scenario) value(u *ledger.Utxo, at int64) uint64 {
 
 var txKinds = []string{"valid", "valid", "valid", "valid", "fee-exact", "fee-low", "fee-plus1", "double-spend", "duplicate", "bad-sig",
 	"zero-sig", "wrong-owner", "wrong-owner-2nd", "foreign-sig", "replay-sig", "unknown-ref", "bad-index", "ts-old", "ts-last", "ts-next", "ts-future", "overflow", "huge-output",
-	"yield-new", "yield-twice", "yield-registered", "yield-swap", "same-input-twice", "same-input-twice-rich", "spend-pooled", "spend-last-block", "yield-pending", "bad-sig-first", "zero-output", "zero-first-outputs", "shifted-owner", "many-outputs", "consolidate"}
+	"yield-new", "yield-twice", "yield-registered", "yield-swap", "same-input-twice", "same-input-twice-rich", "spend-pooled", "spend-last-block", "yield-pending", "bad-sig-first", "zero-yield-rest", "zero-output", "zero-first-outputs", "shifted-owner", "many-outputs", "consolidate"}
 
 func (sc *scenario) makeTx(n *node.Node, kind string) (*ledger.Transaction, string) {
 	r := sc.rng
@@ -162,6 +164,15 @@ func (sc *scenario) makeTx(n *node.Node, kind string) (*ledger.Transaction, stri
 	}
 	pickSome := func(k int) {
 		r.Shuffle(len(usable), func(i, j int) { usable[i], usable[j] = usable[j], usable[i] })
+		if r.Intn(2) == 0 {
+			// prefer the sibling of an empty yielding output: spending it must leave the empty one resolvable
+			for i := range usable {
+				if sc.zeroYieldSiblings[usable[i].u.TransactionId()] {
+					usable[0], usable[i] = usable[i], usable[0]
+					break
+				}
+			}
+		}
 		for i := 0; i < k && i < len(usable); i++ {
 			u := usable[i]
 			spends = append(spends, node.Spend{TxId: u.u.TransactionId(), Index: u.u.OutputIndex(), By: u.owner})
@@ -388,6 +399,36 @@ func (sc *scenario) makeTx(n *node.Node, kind string) (*ledger.Transaction, stri
 	case "yield-new":
 		pickSome(1)
 		return mk(spends, outs(inV, S.MinFee, "new"), ts), kind
+	case "zero-yield-rest": // the wallet's "send everything, keep the income": [all -> recipient, 0 YIELDING -> sender]; the
+		// empty yielding rest is a live output (income accrues on it) and must outlive the spending of its sibling
+		for i := range usable {
+			u := usable[i]
+			if !n.Reg.IsRegistered(u.owner.Address) {
+				continue
+			}
+			hasOther := false
+			for _, c := range conf {
+				if c.owner == u.owner && c.u.IsYielding() && !(c.u.TransactionId() == u.u.TransactionId() && c.u.OutputIndex() == u.u.OutputIndex()) {
+					hasOther = true
+				}
+			}
+			v := sc.value(u.u, next)
+			if hasOther || v <= S.MinFee+1 {
+				continue
+			}
+			var to *node.Wallet
+			for _, c := range sc.w.Wallets {
+				if c != u.owner {
+					to = c
+				}
+			}
+			if to == nil {
+				continue
+			}
+			return mk([]node.Spend{{TxId: u.u.TransactionId(), Index: u.u.OutputIndex(), By: u.owner}},
+				[]node.RawOutput{{Address: to.Address, Value: v - S.MinFee}, {Address: u.owner.Address, IsYielding: true, Value: 0}}, ts), kind
+		}
+		return nil, ""
 	case "yield-twice":
 		pickSome(1)
 		return mk(spends, outs(inV, S.MinFee, "twice"), ts), kind
@@ -1081,6 +1122,25 @@ func (sc *scenario) run(maxOps int) {
 			w.Hist["tx:"+k+"→"+v.Info["submit"]]++
 			if v.Info["submit"] == "admitted" {
 				sc.mark("admitted")
+				if k == "zero-yield-rest" {
+					if sc.zeroYieldSiblings == nil {
+						sc.zeroYieldSiblings = map[string]bool{}
+					}
+					sc.zeroYieldSiblings[tx.Id()] = true
+					if r.Intn(2) == 0 {
+						// confirm it (two on-schedule ticks), let the recipient spend the amount, confirm that too, then read
+						for q := 0; q < 2; q++ {
+							w.Tick(n, n.Chain.LastBlockTimestamp()+S.Interval)
+						}
+						if t2, k2 := sc.makeTx(n, "valid"); t2 != nil {
+							v2 := w.Submit(n, t2)
+							w.Hist["tx:"+k2+"(after zero-yield-rest)→"+v2.Info["submit"]]++
+							for q := 0; q < 2; q++ {
+								w.Tick(n, n.Chain.LastBlockTimestamp()+S.Interval)
+							}
+						}
+					}
+				}
 				if k == "zero-first-outputs" && r.Intn(2) == 0 {
 					// confirm it (two on-schedule ticks), then the owner of output k+1 tries to spend output k
 					for q := 0; q < 2; q++ {
@@ -1252,7 +1312,23 @@ func (sc *scenario) runAgree(maxOps int) {
 	w.Tick(f, T0) // private first block, then adopt the leader's chain
 	sc.catchUp(f, a, sc.clock, 3)
 	bound := func() int { return 2 + ceilDiv(len(a.AllBlocks()), int(S.BlocksLimit)-1) }
+	var lapsed []string // addresses the oracle stopped vouching for (every node's refresh sees the same oracle)
 	for step := 0; step < maxOps && w.Continue(); step++ {
+		if r.Intn(4) == 0 && len(a.AllBlocks()) >= 2 {
+			// the oracle drops some wallets BEFORE the submissions: the leader's next block lists them as removed and may
+			// still pay them a yielding output (they stay registered until that block is confirmed)
+			lapsed = nil
+			for _, wl := range w.Wallets {
+				if r.Intn(3) == 0 {
+					lapsed = append(lapsed, wl.Address)
+				}
+			}
+			w.RegSync(a, lapsed, nil)
+			if tp, kp := sc.makeTx(a, "yield-pending"); tp != nil {
+				vp := w.Submit(a, tp)
+				w.Hist["tx:"+kp+"→"+vp.Info["submit"]]++
+			}
+		}
 		// some submissions on the leader
 		for k := r.Intn(4); k > 0; k-- {
 			tx, kind := sc.makeTx(a, sc.txKind())
@@ -1298,8 +1374,19 @@ func (sc *scenario) runAgree(maxOps int) {
 		if v.Info["included"] != "0" {
 			sc.mark("block-with-tx")
 		}
-		// extension
-		w.Sync(f, sc.clock, []trace.Neighbour{trace.Honest(a)})
+		// extension — now and then the peer has refreshed its registry against the same oracle (the lapsed addresses wait
+		// in ITS pending list too) and a second neighbour still holds the peer's own chain (no all-forks fallback)
+		extNb := []trace.Neighbour{trace.Honest(a)}
+		if r.Intn(2) == 0 {
+			if len(lapsed) > 0 {
+				w.RegSync(f, lapsed, nil)
+			}
+			if len(prev) > 2 {
+				extNb = append(extNb, trace.Serving("witness:1", "honest", prev, S.BlocksLimit))
+				w.Hist["agree:extension-with-witness"]++
+			}
+		}
+		w.Sync(f, sc.clock, extNb)
 		if !sameChain(f, a) {
 			sc.propFail(fmt.Sprintf("C05 extension: an honest peer holding the same chain did not adopt the produced block (height %d)", len(prev)), "sync")
 			sc.mark("adopted")
@@ -1377,6 +1464,18 @@ func (sc *scenario) runCatchup(maxOps int) {
 					sc.mark("admitted")
 				}
 			}
+		}
+		if r.Intn(5) == 0 {
+			// the oracle drops some wallets: the next block lists the registered ones as removed, and once that block is
+			// confirmed the served chain goes on with EMPTY (not absent) removal lists
+			var invalid []string
+			for _, wl := range w.Wallets {
+				if r.Intn(2) == 0 {
+					invalid = append(invalid, wl.Address)
+				}
+			}
+			w.RegSync(a, invalid, nil)
+			w.Hist["catchup:leader-regsync"]++
 		}
 		sc.clock += S.Interval
 		if v := w.Tick(a, sc.clock); v.Info["included"] != "0" && v.Info["included"] != "" {
@@ -2190,6 +2289,11 @@ func main() {
 		if err != nil {
 			fmt.Fprintln(os.Stderr, "cannot start driver:", err)
 			os.Exit(2)
+		}
+		// one world in four has neighbours that encode their answers like a non-Go peer (members sorted, indented)
+		if i%4 == 3 {
+			w.Foreign = true
+			w.Hist["world:foreign-encoded-neighbours"]++
 		}
 		sc := &scenario{w: w, rng: rng, profile: *profile, nontriv: map[string]bool{}}
 		ops := 10 + rng.Intn(*maxOps-9)
